@@ -98,17 +98,11 @@ def reshape_failure_cases(
     ):
         reshaped_failure_cases = failure_cases
     elif is_table(failure_cases) and is_multiindex(failure_cases.index):
-        reshaped_failure_cases = (
-            failure_cases.rename_axis("column", axis=1)  # type: ignore[call-overload]
-            .assign(
-                index=lambda df: (
-                    df.index.to_frame().apply(tuple, axis=1).astype(str)
-                )
-            )
-            .set_index("index", drop=True)
-            .unstack()
-            .rename("failure_case")
-            .reset_index()
+        reshaped_failure_cases = _unstack_failure_cases(
+            failure_cases,
+            _multiindex_to_frame(failure_cases)
+            .apply(tuple, axis=1)
+            .astype(str),
         )
     elif is_field(failure_cases) and is_multiindex(failure_cases.index):
         reshaped_failure_cases = (
@@ -122,8 +116,9 @@ def reshape_failure_cases(
             .reset_index(drop=True)
         )
     elif is_table(failure_cases):
-        reshaped_failure_cases = failure_cases.unstack().reset_index()
-        reshaped_failure_cases.columns = ["column", "index", "failure_case"]  # type: ignore[call-overload,assignment]  # noqa
+        reshaped_failure_cases = _unstack_failure_cases(
+            failure_cases, failure_cases.index
+        )
     elif is_field(failure_cases):
         reshaped_failure_cases = failure_cases.rename("failure_case")  # type: ignore[call-overload]
         reshaped_failure_cases.index.name = "index"
@@ -138,6 +133,31 @@ def reshape_failure_cases(
         reshaped_failure_cases.dropna()  # type: ignore[return-value]
         if ignore_na
         else reshaped_failure_cases
+    )
+
+
+def _unstack_failure_cases(
+    failure_cases: pd.DataFrame, index
+) -> pd.DataFrame:
+    """Reshape a table of failure cases into (column, index, failure_case)
+    records, column by column.
+
+    Unlike ``DataFrame.unstack`` this supports repeated index labels.
+    """
+    n_rows, n_columns = failure_cases.shape
+    if n_columns == 0:
+        return pd.DataFrame(columns=["column", "index", "failure_case"])
+    return pd.DataFrame(
+        {
+            "column": pd.Series(failure_cases.columns)
+            .repeat(n_rows)
+            .reset_index(drop=True),
+            "index": pd.Series(list(index) * n_columns),
+            "failure_case": pd.concat(
+                [failure_cases.iloc[:, i] for i in range(n_columns)],
+                ignore_index=True,
+            ),
+        }
     )
 
 
